@@ -1,6 +1,6 @@
 --------------------------- MODULE Gen_AdtLayout ---------------------------
 (* Stage (B) for C14: TLC enumerates the shape space of ADT tiles.                                 *)
-(*   shape == [ver, ntex, nmdl, nwmo, nddf, nmodf, mcnk, where, mcvt, mcnr, nly, mcrf, mcal, mcsh,  *)
+(*   shape == [ver, ntex, nmdl, nwmo, nddf, nmodf, dtex, dmdl, dwmo, mcnk, where, mcvt, mcnr, nly, mcrf, mcal, mcsh,  *)
 (*             mclq, mccv, mcse, mclv, water, wlay, wbase, mfbo, mtxf, mamp, mtxp, bmesh]           *)
 (* The full product has ~5*10^9 elements, so both tiers use the reduced product: deterministic     *)
 (* low-dimensional slices through the baseline shape (every version x every optional top-level     *)
@@ -17,7 +17,7 @@ Seed     == atoi(IOEnv.VERIF_SEED)
 
 Lay == [mcnk_hdr |-> McnkHdr, mcnk_fields |-> McnkFields, mhdr_fields |-> MhdrFields]
 
-Base == [ver |-> 0, ntex |-> 1, nmdl |-> 0, nwmo |-> 0, nddf |-> 0, nmodf |-> 0, mcnk |-> "one00", where |-> "all",
+Base == [ver |-> 0, ntex |-> 1, nmdl |-> 0, nwmo |-> 0, nddf |-> 0, nmodf |-> 0, dtex |-> "none", dmdl |-> "none", dwmo |-> "none", mcnk |-> "one00", where |-> "all",
          mcvt |-> TRUE, mcnr |-> TRUE, nly |-> 1, mcrf |-> FALSE, mcal |-> FALSE, mcsh |-> FALSE, mclq |-> FALSE,
          mccv |-> FALSE, mcse |-> FALSE, mclv |-> FALSE, water |-> "none", wlay |-> 1, wbase |-> 0, mfbo |-> FALSE, mtxf |-> FALSE,
          mamp |-> FALSE, mtxp |-> FALSE, bmesh |-> FALSE]
@@ -65,6 +65,15 @@ LayerCfg(k) == [bm |-> k % 2 = 1, vd |-> (k \div 2) % 2 = 1, lvf |-> (k \div 4) 
 S6 == {[Base EXCEPT !.ver = 3, !.water = w, !.wlay = 2, !.wbase = b] : w \in {"c0", "c255"}, b \in 0..63}
       \cup {[Base EXCEPT !.ver = v, !.water = "all", !.wlay = y, !.wbase = b, !.mtxp = (v = 5)] : v \in {3, 4, 5}, y \in 1..3, b \in {0, 37}}
 
+\* S7: duplicate names.  Element multiplicity is part of a list: for each of the three name lists a pattern
+\*     {all distinct, first = second, first = last, all equal} on 3 names; 3 placements per placement list, which
+\*     the driver points at EVERY index (last index first), so an index shift or a shortened list shows.
+Dups == <<"none", "first2", "firstlast", "all">>
+S7 == {[Base EXCEPT !.ver = 2, !.ntex = 3, !.nmdl = 3, !.nwmo = 3, !.nddf = 3, !.nmodf = 3, !.dtex = Dups[a], !.dmdl = Dups[b], !.dwmo = Dups[c]] :
+          a \in 1..4, b \in 1..4, c \in 1..4}
+      \cup {[Base EXCEPT !.ver = 5, !.ntex = 3, !.nmdl = 3, !.nwmo = 3, !.nddf = 3, !.nmodf = 3, !.dtex = Dups[a], !.dmdl = Dups[a], !.dwmo = Dups[a],
+                          !.mtxf = TRUE, !.mtxp = TRUE, !.mcnk = "n17"] : a \in 1..4}
+
 \* ---- seeded draws from the full product
 Lcg(x) == (x * 75 + 74) % 65537
 DrawBool(x)    == (x \div 7) % 2 = 1
@@ -79,7 +88,8 @@ Draw(m) ==
         \* optional kinds: mostly admissible for the drawn version (an inadmissible one ends at Build)
         adm(kd, x) == DrawBool(x) /\ (v >= MinVerOf(kd) \/ x % 8 = 0)
         nm == DrawOf(Cards, x3)   nw == DrawOf(Cards, x4)
-    IN [ver |-> v, ntex |-> IF x2 % 16 = 0 THEN 0 ELSE DrawOf(<<1, 3>>, x2), nmdl |-> nm, nwmo |-> nw,
+    IN [dtex |-> Dups[((x22 \div 29) % 4) + 1], dmdl |-> Dups[((x23 \div 29) % 4) + 1], dwmo |-> Dups[((x24 \div 29) % 4) + 1],
+        ver |-> v, ntex |-> IF x2 % 16 = 0 THEN 0 ELSE DrawOf(<<1, 3>>, x2), nmdl |-> nm, nwmo |-> nw,
         nddf |-> IF nm = 0 /\ x5 % 8 # 0 THEN 0 ELSE DrawOf(Cards, x5),
         nmodf |-> IF nw = 0 /\ x6 % 8 # 0 THEN 0 ELSE DrawOf(Cards, x6),
         mcnk |-> DrawOf(<<"auto", "one00", "one00", "one1515", "one1515", "n17", "n17", "n256">>, x7),
@@ -100,7 +110,8 @@ T1 == IF Thorough
 
 Shapes == SetToSeq(S1) \o SetToSeq(S2 \ S1) \o SetToSeq(S3 \ (S1 \cup S2)) \o SetToSeq(S4 \ (S1 \cup S2 \cup S3))
           \o SetToSeq(S5 \ (S1 \cup S2 \cup S3 \cup S4)) \o SetToSeq(S6 \ (S1 \cup S2 \cup S3 \cup S4 \cup S5))
-          \o SetToSeq(T1 \ (S1 \cup S2 \cup S3 \cup S4 \cup S5 \cup S6)) \o Draws
+          \o SetToSeq(S7 \ (S1 \cup S2 \cup S3 \cup S4 \cup S5 \cup S6))
+          \o SetToSeq(T1 \ (S1 \cup S2 \cup S3 \cup S4 \cup S5 \cup S6 \cup S7)) \o Draws
 Cases == [j \in 1..Len(Shapes) |-> [fld \in DOMAIN Shapes[j] \cup {"lay", "id", "wl"} |->
              IF fld = "lay" THEN Lay ELSE IF fld = "id" THEN j ELSE IF fld = "wl" THEN LayerCfg(Shapes[j].wbase) ELSE Shapes[j][fld]]]
 \* the generator is a constant-level computation; the behaviour spec is a single stuttering-free state
